@@ -135,7 +135,9 @@ fn threaded(prim: &str, ex: Box<dyn Exec>, t: usize, ops: &[Vec<u64>]) -> String
 }
 
 fn nums(s: &str) -> Vec<u64> {
-    s.split_whitespace().map(|x| x.parse().expect("number")).collect()
+    // a malformed field (e.g. a line cut off by a timed-out generator) becomes an operation no
+    // executor knows: the line is answered with BADOP observations instead of a crash
+    s.split_whitespace().map(|x| x.parse().unwrap_or(u64::MAX)).collect()
 }
 
 fn main() {
